@@ -33,6 +33,18 @@ classdef("SwarmAlgorithm", bases=["GeneticAlgorithm"],
 classdef("OMOPSO", bases=["SwarmAlgorithm"], fields={})
 classdef("SMPSO", bases=["SwarmAlgorithm"], fields={})
 classdef("PSOGA", bases=["SwarmAlgorithm"], fields={})
+# ghost_* fields are specification-only state (the objective call log of C05/C06/C19): number of calls of the user's
+# objective, and argument / vector list / returned list of the most recent call
 classdef("Problem", fields={"parameters": "List[Ref[Parameter]]", "individuals": "List[Ref[Individual]]",
-                            "failed": "List[Ref[Individual]]", "signs": "List[Int]"})
+                            "failed": "List[Ref[Individual]]", "signs": "List[Int]", "surrogate": "Ref[SurrogateModel]",
+                            "data_store": "Ref[DataStore]", "has_predict": "Bool",
+                            "ghost_calls": "Int", "ghost_last_arg": "Ref[Individual]", "ghost_last_vec": "List[Real]",
+                            "ghost_last_ret": "List[Real]"})
+classdef("DataStore", fields={})
+classdef("SurrogateModel", fields={"problem": "Ref[Problem]", "x_data": "List[List[Real]]", "y_data": "List[List[Real]]",
+                                   "trained": "Bool", "eval_counter": "Int", "predict_counter": "Int", "train_step": "Int",
+                                   "regressor": "Opt[Ref[Regressor]]", "ghost_trains": "Int"})
+classdef("Regressor", fields={})
+classdef("SurrogateModelPredict", bases=["SurrogateModel"], fields={})
+classdef("SurrogateModelEval", bases=["SurrogateModel"], fields={})
 classdef("Evaluator", fields={})
